@@ -207,6 +207,11 @@ pub fn solve<F: Function>(
 
     let mut solver = Solver::new(eqs, vars);
 
+    // Nothing to solve for if every parameter is fixed
+    if solver.grad_index.is_empty() {
+        return Ok(HashMap::new());
+    }
+
     // Build an array of current values for each free variable
     let mut cur = vec![0f32; solver.grad_index.len()];
     for (v, i) in &solver.grad_index {
